@@ -261,6 +261,42 @@ func c07Reject(run *ev.Run, sp *layerSpec, seed int64, cs ev.Case) {
 			}
 		}
 	}
+	if okMin, errMin := map[string]int{"OpenSessionRsp": 36, "RAKPMessage2": 40, "RAKPMessage4": 8}[sp.Name], map[string]int{"OpenSessionRsp": 7, "RAKPMessage2": 8, "RAKPMessage4": 8}[sp.Name]; okMin > 0 {
+		// every length below the successful form's size, with a successful and
+		// with failing status codes: the status decides which minimum applies
+		for n := 0; n < okMin+4; n++ {
+			for _, status := range []byte{0, 0, 1, 0x12, 0xff} {
+				in := rbytes(r, n)
+				must := "" // "" = either, "reject"
+				statusAt := 1
+				if sp.Name == "OpenSessionRsp" && n == 1 {
+					statusAt = 0 // the one-byte form some BMCs use for refusals
+				}
+				if n > statusAt {
+					in[statusAt] = status
+				}
+				switch {
+				case n == 0, n < errMin && !(sp.Name == "OpenSessionRsp" && n == 1):
+					must = "reject"
+				case status == 0 && n < okMin:
+					must = "reject"
+				}
+				run.Eval(1)
+				l := sp.New()
+				var err error
+				pv, _ := safe(func() { err = l.DecodeFromBytes(exactCopy(in), gopacket.NilDecodeFeedback) })
+				run.Nontrivial(fmt.Sprintf("%s|status-length|%d|%v", sp.Name, n, status == 0))
+				if must == "reject" && pv == nil && err == nil {
+					run.Violation("C07:"+sp.Name+":short-body-accepted", fmt.Sprintf("%s accepted %d bytes %x (status %#x): shorter than the %d bytes of a successful message / %d of a refusal", sp.Name, n, in, status, okMin, errMin), ev.MkCase("batch", c07Batch{What: "reject", Layer: sp.Name, Seed: seed}), nil)
+					return
+				}
+				if must == "" && status != 0 && (pv != nil || err != nil) {
+					run.Violation("C07:"+sp.Name+":refusal-not-decoded", fmt.Sprintf("%s did not decode the %d-byte refusal %x (status %#x): panic=%v err=%v", sp.Name, n, in, status, pv, err), ev.MkCase("batch", c07Batch{What: "reject", Layer: sp.Name, Seed: seed}), nil)
+					return
+				}
+			}
+		}
+	}
 	if sp.Name != "Message" {
 		return
 	}
